@@ -81,12 +81,23 @@ def gen_cases(ctx):
                     newseq = newseq.lower()
                 elif mode == "random-new":
                     newseq = "".join(c.lower() if rng.random() < 0.5 else c for c in newseq)
+                # record identifiers play no part: in a third of the cases every module record carries the same id
+                # (exports named alike), or the replacement takes the id of a neighbour
+                idmode = rng.choice(["distinct", "distinct", "all-same", "new-as-neighbour"])
+
+                def with_id(d, m, k):
+                    if idmode == "all-same":
+                        return dict(d, id="Exported")
+                    if idmode == "new-as-neighbour" and m is new and q > 1:
+                        return dict(d, id="mod%d" % ((k + 1) % len(mods2)))
+                    return d
                 cases.append({
-                    "enz": enz["name"], "q": q, "pos": j, "mode": mode, "variant": variant,
+                    "enz": enz["name"], "q": q, "pos": j, "mode": mode, "variant": variant + ":ids-" + idmode,
                     "vector": {"cls": gens.generic_spec("vector", enz), "seq": vseq},
-                    "modules1": [{"cls": (jcls if m is old else gens.generic_spec("module", enz)), "seq": seqs[id(m)]} for m in mods1],
-                    "modules2": [{"cls": (jcls if m is new else gens.generic_spec("module", enz)),
-                                  "seq": (newseq if m is new else seqs[id(m)])} for m in mods2],
+                    "modules1": [with_id({"cls": (jcls if m is old else gens.generic_spec("module", enz)), "seq": seqs[id(m)]}, m, k)
+                                 for k, m in enumerate(mods1)],
+                    "modules2": [with_id({"cls": (jcls if m is new else gens.generic_spec("module", enz)),
+                                          "seq": (newseq if m is new else seqs[id(m)])}, m, k) for k, m in enumerate(mods2)],
                     "truth": {"pre": pre, "old": old["frag"], "new": new["frag"], "post": post},
                 })
     return cases
